@@ -100,3 +100,98 @@ Proof.
   rewrite pin_to_bytes_translated by (rewrite Ho; reflexivity).
   rewrite pin_to_bytes_spec; [reflexivity|]. rewrite Ho. apply digits_length_u32. exact Hp.
 Qed.
+
+(* ================================================================================================
+   remap_pin_grid: the body translated from src/pin.rs on this run (the counted-down outer loop with
+   its remainder / quotient step, the pick from the pool, and the inner loop that closes the gap) is
+   the model's remap_pin_grid, for every u32 seed. *)
+Definition remap_inner (v_remainder : N) := fun (v_grid : list N) (v_i : N) =>
+  if 18446744073709551615 <? v_remainder + v_i then None else
+  if 18446744073709551615 <? v_remainder + v_i then None else
+  if 18446744073709551615 <? (v_remainder + v_i) + 1 then None else
+  match nth_error v_grid (N.to_nat ((v_remainder + v_i) + 1)) with None => None | Some t2 =>
+  if N.of_nat (length v_grid) <=? (v_remainder + v_i) then None else
+  let v_grid := list_set v_grid (N.to_nat (v_remainder + v_i)) t2 in
+  Some (inr (A := list N) v_grid) end.
+
+Definition remap_outer := fun '(v_pin_grid_seed, v_grid, v_remapped_grid) '(v_remapped_index, v_i) =>
+  if v_i =? 0 then None else
+  let v_remainder := (v_pin_grid_seed mod v_i) in
+  if v_i =? 0 then None else
+  let v_pin_grid_seed := (v_pin_grid_seed / v_i) in
+  match nth_error v_grid (N.to_nat v_remainder) with None => None | Some t1 =>
+  if N.of_nat (length v_remapped_grid) <=? v_remapped_index then None else
+  let v_remapped_grid := list_set v_remapped_grid (N.to_nat v_remapped_index) t1 in
+  if v_i <? v_remainder then None else
+  if (v_i - v_remainder) <? 1 then None else
+  let v_copy_size := ((v_i - v_remainder) - 1) in
+  match for_loop (remap_inner v_remainder) v_grid (range_list 0 v_copy_size) with
+  | None => None
+  | Some (inl r_early) => Some (inl r_early)
+  | Some (inr v_grid) =>
+  Some (inr (v_pin_grid_seed, v_grid, v_remapped_grid)) end end.
+
+Lemma remap_inner_shift : forall n j0 grid rem,
+  rem + N.of_nat j0 + N.of_nat n < 18446744073709551615 ->
+  for_loop (remap_inner rem) grid (map (fun k => 0 + N.of_nat k) (seq j0 n))
+  = match shift_left n (N.to_nat rem + j0) grid with Some g => Some (inr g) | None => None end.
+Proof.
+  induction n as [|n IH]; intros j0 grid rem Hb; [reflexivity|].
+  cbn [seq map for_loop shift_left]. unfold remap_inner at 1.
+  rewrite N.add_0_l.
+  destruct (18446744073709551615 <? rem + N.of_nat j0) eqn:E1; [lia|].
+  destruct (18446744073709551615 <? rem + N.of_nat j0 + 1) eqn:E2; [lia|].
+  replace (N.to_nat (rem + N.of_nat j0 + 1)) with (S (N.to_nat rem + j0)) by lia.
+  destruct (nth_error grid (S (N.to_nat rem + j0))) as [v|] eqn:En; [|reflexivity].
+  rewrite set_nth_list_set.
+  replace (N.to_nat (rem + N.of_nat j0)) with (N.to_nat rem + j0)%nat by lia.
+  destruct (N.of_nat (length grid) <=? rem + N.of_nat j0) eqn:E3;
+  destruct (N.to_nat rem + j0 <? length grid)%nat eqn:E4; try lia; [reflexivity|].
+  rewrite (IH (S j0)) by lia. replace (N.to_nat rem + S j0)%nat with (S (N.to_nat rem + j0)) by lia. reflexivity.
+Qed.
+
+Definition remap_fin (x : option (list N + (N * list N * list N))) : option (list N) :=
+  match x with Some (inr (_, _, r)) => Some r | Some (inl e) => Some e | None => None end.
+
+Lemma remap_outer_loop : forall is idx seed grid remapped,
+  Forall (fun i => i < 4294967296) is ->
+  remap_fin (for_loop remap_outer (seed, grid, remapped) (enumerate_from (N.of_nat idx) is))
+  = res_opt (remap_loop is idx seed grid remapped).
+Proof.
+  induction is as [|i r IH]; intros idx seed grid remapped Hf; [reflexivity|].
+  inversion Hf as [|? ? Hi Hr]; subst.
+  cbn [enumerate_from for_loop remap_loop]. unfold remap_outer at 1.
+  destruct (i =? 0) eqn:Ei; [reflexivity|].
+  assert (Hi0 : i <> 0) by (apply N.eqb_neq; exact Ei).
+  pose proof (N.mod_lt seed i Hi0) as Hm.
+  destruct (nth_error grid (N.to_nat (seed mod i))) as [v|]; [|reflexivity].
+  rewrite set_nth_list_set, Nat2N.id.
+  destruct (N.of_nat (length remapped) <=? N.of_nat idx) eqn:E1;
+  destruct (idx <? length remapped)%nat eqn:E2; try lia; [reflexivity|].
+  destruct (i <? seed mod i) eqn:E3; [lia|].
+  destruct (i - seed mod i <? 1) eqn:E4; destruct (i <? seed mod i + 1) eqn:E5; try lia.
+  unfold range_list. rewrite N.sub_0_r.
+  rewrite (remap_inner_shift (N.to_nat (i - seed mod i - 1)) 0 grid (seed mod i)) by lia.
+  rewrite Nat.add_0_r.
+  destruct (shift_left _ _ grid) as [g|]; [|reflexivity].
+  replace (N.of_nat idx + 1) with (N.of_nat (S idx)) by lia.
+  apply IH. exact Hr.
+Qed.
+
+Lemma pin_remap_pin_grid_translated : forall seed,
+  tr_pin_remap_pin_grid seed = res_opt (remap_pin_grid seed).
+Proof.
+  intro seed. unfold tr_pin_remap_pin_grid, remap_pin_grid.
+  match goal with |- context [for_loop ?b ?s ?l] =>
+    change (for_loop b s l) with (for_loop remap_outer (seed, initial_grid, initial_grid) (enumerate_from (N.of_nat 0) (countdown (N.to_nat max_pin_length)))) end.
+  pose proof (remap_outer_loop (countdown (N.to_nat max_pin_length)) 0 seed initial_grid initial_grid) as L.
+  assert (Hf : Forall (fun i => i < 4294967296) (countdown (N.to_nat max_pin_length))).
+  { apply Forall_forall. intros x Hx. vm_compute in Hx. repeat (destruct Hx as [<-|Hx]; [reflexivity|]). destruct Hx. }
+  specialize (L Hf). rewrite <- L. unfold remap_fin.
+  destruct (for_loop remap_outer _ _) as [[e|[[s g] r]]|]; reflexivity.
+Qed.
+
+(* property level, about the translated function: the layout is the factorial-base (Lehmer) decoding
+   of seed mod 10! applied to the digits 0..9 *)
+Theorem pin_source_grid : forall seed, tr_pin_remap_pin_grid seed = Some (grid seed).
+Proof. intro seed. rewrite pin_remap_pin_grid_translated, grid_spec. reflexivity. Qed.
